@@ -11,7 +11,10 @@ from tlc import MachineryError
 
 
 def inputs_only(trace):
-    return {'init': trace['init'], 'events': [{'in': e['in']} for e in trace['events']]}
+    out = {'init': trace['init'], 'events': [{'in': e['in']} for e in trace['events']]}
+    if 'mode' in trace:
+        out['mode'] = trace['mode']
+    return out
 
 
 def describe(trace, step):
@@ -21,12 +24,12 @@ def describe(trace, step):
 
 def default_key(trace, step, aspects):
     ev = trace['events'][step - 1]['in'] if 0 < step <= len(trace['events']) else {'e': '?'}
-    kind = ev['e'] + ('.' + ev['c'] if ev['e'] == 'cmd' else '')
+    kind = ev['e'] + ('.' + ev['c'] if ev['e'] == 'cmd' else '') + ('.' + ev['cmd']['c'] if ev['e'] == 'invoke' else '')
     return kind + ':' + ','.join(sorted(aspects))
 
 
 def run_sessions(ctx, rep, sessions, relevant, classify=None, batch=1200, color=False, label='sessions',
-                 signature=None):
+                 signature=None, runner=None, spec=('TraceSession.tla', 'TraceSession.cfg')):
     classify = classify or default_key
     pending = []
 
@@ -34,7 +37,7 @@ def run_sessions(ctx, rep, sessions, relevant, classify=None, batch=1200, color=
         if not pending:
             return
         traces = [p[0] for p in pending]
-        v = tracecheck.validate_parallel(traces, name=ctx.prop.lower())
+        v = tracecheck.validate_parallel(traces, name=ctx.prop.lower(), spec=spec)
         rep.add_tlc(v, 'TraceSession on %d traces / %d steps (%s)' % (v.ntraces, v.nsteps, label))
         rep.traces += v.ntraces
         for t, l, asp in v.failing(relevant):
@@ -50,7 +53,10 @@ def run_sessions(ctx, rep, sessions, relevant, classify=None, batch=1200, color=
         del pending[:]
 
     for trace, render, lab in sessions:
-        e1.run(trace, render=render, color=color)
+        if runner is not None:
+            runner(trace, render)
+        else:
+            e1.run(trace, render=render, color=color)
         nmsg = sum(1 for e in trace['events'] if e['in']['e'] == 'msg')
         rep.case(signature(trace) if signature else json.dumps(inputs_only(trace), sort_keys=True))
         if len(rep.samples) < 3:
@@ -62,10 +68,13 @@ def run_sessions(ctx, rep, sessions, relevant, classify=None, batch=1200, color=
     flush()
 
 
-def replay_session(ctx, data, relevant):
+def replay_session(ctx, data, relevant, runner=None, spec=('TraceSession.tla', 'TraceSession.cfg')):
     trace = copy.deepcopy(data['trace'])
-    e1.run(trace, render=data.get('render'), color=data.get('color', False))
-    v = tracecheck.validate([trace], name='replay', keep=True)
+    if runner is not None:
+        runner(trace, data.get('render'))
+    else:
+        e1.run(trace, render=data.get('render'), color=data.get('color', False))
+    v = tracecheck.validate([trace], name='replay', keep=True, spec=spec)
     fails = v.failing(relevant)
     for t, l, asp in v.fails:
         print('step %d: %s  (%s)' % (l, asp, describe(trace, l)))
